@@ -1,4 +1,5 @@
 import CuriesVerif.Properties.C06
+import CuriesVerif.Properties.C05
 
 /-!
 # What a converter advertises is what it resolves (C04 / C05, `get_prefixes` / `get_uri_prefixes`)
@@ -106,7 +107,61 @@ theorem C04_advertised_uri_prefixes (u : Str) :
         simpa using hsplit.symm
       exact ⟨r, hl.1, hk ▸ hl.2.1⟩
 
+/-- **C04 / C05.** The keys of `prefix_map` are exactly the advertised CURIE prefixes (synonyms included), and the
+value under each is the canonical URI prefix of the unique record that lists it. -/
+theorem C04_advertised_prefix_map (p : Str) :
+    ((Dict.get c.prefixMap p).isSome = true ↔ p ∈ c.getPrefixes true) ∧
+    ∀ r ∈ c.records, p ∈ r.allP → Dict.get c.prefixMap p = some r.uri ∧ Dict.get c.synToPrefix p = some r.pfx := by
+  refine ⟨?_, fun r hr hp => ?_⟩
+  · rw [h.mirror.pm, mem_getPrefixes_syn]
+    cases ho : ownerP c.records p with
+    | none =>
+      simp only [Option.map_none, Option.isSome_none, Bool.false_eq_true, false_iff]
+      rintro ⟨r, hr, hp⟩
+      exact ownerP_none ho r hr hp
+    | some r =>
+      simp only [Option.map_some, Option.isSome_some, true_iff]
+      exact ⟨r, (ownerP_some ho).1, (ownerP_some ho).2⟩
+  · rw [h.mirror.pm, h.mirror.sp, ownerP_of_mem h.unique hr hp]
+    exact ⟨rfl, rfl⟩
+
+/-- **C04 / C05.** The keys of `reverse_prefix_map` and of the trie are exactly the advertised URI prefixes
+(synonyms included), and the value under each is the canonical CURIE prefix of the unique record that lists it. -/
+theorem C04_advertised_reverse_map (u : Str) :
+    ((Dict.get c.revMap u).isSome = true ↔ u ∈ c.getUriPrefixes true) ∧
+    ((Dict.get c.trie u).isSome = true ↔ u ∈ c.getUriPrefixes true) ∧
+    ∀ r ∈ c.records, u ∈ r.allU → Dict.get c.revMap u = some r.pfx ∧ Dict.get c.trie u = some r.pfx := by
+  have key : ((ownerU c.records u).map (·.pfx)).isSome = true ↔ u ∈ c.getUriPrefixes true := by
+    rw [mem_getUriPrefixes_syn]
+    cases ho : ownerU c.records u with
+    | none =>
+      simp only [Option.map_none, Option.isSome_none, Bool.false_eq_true, false_iff]
+      rintro ⟨r, hr, hp⟩
+      exact ownerU_none ho r hr hp
+    | some r =>
+      simp only [Option.map_some, Option.isSome_some, true_iff]
+      exact ⟨r, (ownerU_some ho).1, (ownerU_some ho).2⟩
+  refine ⟨by rw [h.mirror.rm]; exact key, by rw [h.mirror.tr]; exact key, fun r hr hu => ?_⟩
+  rw [h.mirror.rm, h.mirror.tr, ownerU_of_mem h.unique hr hu]
+  exact ⟨rfl, rfl⟩
+
 end
+
+/-- **C05 (histories).** After any history of `add_record` / `add_prefix` calls (any flags, any case folding,
+rejected calls included) on a well-formed converter, the advertised sets are still exactly what the converter
+resolves: the instantiation of the four `C04_advertised_*` theorems at every reachable state. -/
+theorem C05_advertised_histories (fold : Str → Str) (c : Conv) (h : WF c) (ops : List AddOp)
+    (hr : ∀ op ∈ ops, RecOK op.r) :
+    let c' := runOps fold c ops
+    (∀ p, p ∈ c'.getPrefixes true ↔ ∃ q, c'.standardizePrefix p false false = .ok (some q)) ∧
+    (∀ p, p ∈ c'.getPrefixes false ↔ c'.standardizePrefix p false false = .ok (some p)) ∧
+    (∀ u, u ∈ c'.getUriPrefixes true ↔ ∃ p, c'.parseUri u false = .ok (some (p, []))) ∧
+    (∀ p, (Dict.get c'.prefixMap p).isSome = true ↔ p ∈ c'.getPrefixes true) ∧
+    (∀ u, (Dict.get c'.revMap u).isSome = true ↔ u ∈ c'.getUriPrefixes true) := by
+  intro c'
+  have h' : WF c' := C05_histories fold c h ops hr
+  exact ⟨C04_advertised_prefixes h', C04_advertised_canonical h', C04_advertised_uri_prefixes h',
+    fun p => (C04_advertised_prefix_map h' p).1, fun u => (C04_advertised_reverse_map h' u).1⟩
 
 /-- non-vacuity: the hypotheses are met by a concrete well-formed converter (the one of known finding K1), and the
 advertised sets are not empty there -/
